@@ -5,7 +5,6 @@ import (
 	"bytes"
 	"sync/atomic"
 
-	"github.com/echovault/sugardb/internal/verifhook"
 	"encoding/json"
 	"fmt"
 	"net"
@@ -63,14 +62,14 @@ func (c *collector) quiet(d time.Duration, max time.Duration) {
 var readsStarted, readsDone atomic.Int64
 
 func init() {
-	verifhook.SetHandler(func(name string) {
+	HookExtra = func(name string) {
 		switch name {
 		case "readmessage.read.before":
 			readsStarted.Add(1)
 		case "readmessage.read.after":
 			readsDone.Add(1)
 		}
-	})
+	}
 }
 
 // blockedReads = goroutines currently inside a Read of ReadMessage (started - completed).
